@@ -134,6 +134,16 @@ class StructV(V):
         return self.name + "{" + ", ".join(f"{k}: {v!r}" for k, v in self.fields.items()) + "}"
 
 
+class IterV(V):
+    """A concrete iterator over known elements (only produced when Evaluator.concrete_iters is set): small-scope semantics of
+    the std iterator adaptors, used to decide lookup contracts on short abstract vectors."""
+    def __init__(self, elems):
+        self.elems = list(elems)
+
+    def __repr__(self):
+        return "iter" + repr(self.elems)
+
+
 class TupleV(V):
     def __init__(self, elems):
         self.elems = list(elems)
@@ -220,6 +230,8 @@ def vkey(v):
         return "(" + ", ".join(vkey(x) for x in v.elems) + ")"
     if isinstance(v, ListV):
         return "[" + ", ".join(vkey(x) for x in v.elems) + "]"
+    if isinstance(v, IterV):
+        return "iter[" + ", ".join(vkey(x) for x in v.elems) + "]"
     if isinstance(v, Clos):
         caps = clos_captures(v)
         return "|" + ",".join(render_pat(p) for p in v.params) + "| " + render(v.body) + ("[" + ", ".join(f"{k}={x}" for k, x in caps) + "]" if caps else "")
@@ -814,6 +826,8 @@ class Evaluator:
         if name in ("clone", "as_ref", "as_mut", "borrow", "to_owned", "into", "iter", "as_str", "cloned", "copied", "deref") and not args:
             if name == "iter" and isinstance(recv, SymObj):
                 return SymObj(recv.path + ".iter()", ("iter", recv.ty))
+            if name in ("iter", "into_iter") and isinstance(recv, ListV) and getattr(self, "concrete_iters", False):
+                return IterV(recv.elems)
             return recv
         if name == "to_token_stream" or name == "into_token_stream":
             return Toks(self.to_toks(recv))
@@ -882,13 +896,26 @@ class Evaluator:
                     if not some:
                         return t
                     return t if self.truth(self.call_closure(args[0], [inner])) else Tag("None", [], "Option")
+        if isinstance(recv, IterV):
+            return self.iter_method(recv, name, args)
         # lists
         if isinstance(recv, ListV):
             if name in ("sort_by", "sort", "sort_by_key", "sort_unstable_by", "sort_unstable", "reverse", "dedup"):
                 self.effects.append(("list", name))
                 return UNIT
             if name in ("iter", "into_iter", "iter_mut"):
+                if getattr(self, "concrete_iters", False):
+                    return IterV(recv.elems)
                 return SymObj("iter(" + vkey(recv) + ")", ("iter", ("named", "?")))
+            if getattr(self, "concrete_iters", False) and name in ("first", "last", "get"):
+                if name == "get":
+                    i = args[0]
+                    if isinstance(i, int) and not isinstance(i, bool):
+                        return Tag("Some", [recv.elems[i]], "Option") if 0 <= i < len(recv.elems) else Tag("None", [], "Option")
+                elif recv.elems:
+                    return Tag("Some", [recv.elems[0 if name == "first" else -1]], "Option")
+                else:
+                    return Tag("None", [], "Option")
             if name == "push":
                 recv.elems.append(args[0])
                 return UNIT
@@ -922,6 +949,122 @@ class Evaluator:
             self.effects.append((vkey(recv)[:60], name, [vkey(a)[:60] for a in args]))
             return SymObj("(" + vkey(recv) + ")." + name + "(" + ", ".join(self.argkey(a) for a in args) + ")", ("named", "?"))
         raise Unsupported(f"method {name} on {vkey(recv)}")
+
+    def iter_method(self, it, name, args):
+        some = lambda v: Tag("Some", [v], "Option")
+        none = Tag("None", [], "Option")
+        def call(f, *a):
+            if isinstance(f, Clos):
+                return self.call_closure(f, list(a))
+            raise Unsupported("iterator adaptor argument is not a closure: " + vkey(f))
+        el = it.elems
+        if name in ("iter", "into_iter", "by_ref", "cloned", "copied", "peekable", "fuse"):
+            return it
+        if name == "filter":
+            return IterV([x for x in el if self.truth(call(args[0], x))])
+        if name == "map":
+            return IterV([call(args[0], x) for x in el])
+        if name == "filter_map":
+            out = []
+            for x in el:
+                r = call(args[0], x)
+                r = self.tag_of(r) if isinstance(r, SymObj) else r
+                if isinstance(r, Tag) and r.name == "Some":
+                    out.append(r.args[0])
+                elif not (isinstance(r, Tag) and r.name == "None"):
+                    raise Unsupported("filter_map closure result " + vkey(r))
+            return IterV(out)
+        if name == "rev":
+            return IterV(list(reversed(el)))
+        if name in ("skip", "take", "nth", "step_by") and args and isinstance(args[0], int) and not isinstance(args[0], bool):
+            n = args[0]
+            if name == "skip":
+                return IterV(el[n:])
+            if name == "take":
+                return IterV(el[:n])
+            if name == "step_by":
+                if n <= 0:
+                    raise PanicReached("step_by", "step_by(0)", 0)
+                return IterV(el[::n])
+            return some(el[n]) if n < len(el) else none
+        if name == "chain" and isinstance(args[0], (IterV, ListV)):
+            return IterV(el + list(args[0].elems))
+        if name == "enumerate":
+            return IterV([TupleV([i, x]) for i, x in enumerate(el)])
+        if name in ("next", "first"):
+            return some(el[0]) if el else none
+        if name in ("last", "next_back"):
+            return some(el[-1]) if el else none
+        if name == "count" or name == "len":
+            return len(el)
+        if name == "is_empty":
+            return not el
+        if name == "find":
+            for x in el:
+                if self.truth(call(args[0], x)):
+                    return some(x)
+            return none
+        if name == "rfind":
+            for x in reversed(el):
+                if self.truth(call(args[0], x)):
+                    return some(x)
+            return none
+        if name == "find_map":
+            for x in el:
+                r = call(args[0], x)
+                r = self.tag_of(r) if isinstance(r, SymObj) else r
+                if isinstance(r, Tag) and r.name == "Some":
+                    return r
+                if not (isinstance(r, Tag) and r.name == "None"):
+                    raise Unsupported("find_map closure result " + vkey(r))
+            return none
+        if name == "position":
+            for i, x in enumerate(el):
+                if self.truth(call(args[0], x)):
+                    return some(i)
+            return none
+        if name == "any":
+            return any(self.truth(call(args[0], x)) for x in el)
+        if name == "all":
+            return all(self.truth(call(args[0], x)) for x in el)
+        if name in ("max_by_key", "min_by_key"):
+            if not el:
+                return none
+
+            def keyof(x):
+                k = call(args[0], x)
+                k = self.tag_of(k) if isinstance(k, SymObj) and self._is_enumish(k) else k
+                if isinstance(k, TupleV):
+                    k = tuple(int(self.truth(q)) if not isinstance(q, int) else int(q) for q in k.elems)
+                elif isinstance(k, bool) or isinstance(k, int):
+                    k = int(k)
+                elif isinstance(k, Tag) and k.name in ("Some", "None"):
+                    k = (0,) if k.name == "None" else (1, int(k.args[0]) if isinstance(k.args[0], (bool, int)) else 0)
+                else:
+                    k = int(self.truth(k))
+                return k
+            keys = [keyof(x) for x in el]
+            if name == "max_by_key":  # std: the LAST maximal element
+                best = max(keys)
+                return some([x for x, k in zip(el, keys) if k == best][-1])
+            best = min(keys)          # std: the FIRST minimal element
+            return some([x for x, k in zip(el, keys) if k == best][0])
+        if name == "collect":
+            return ListV(list(el))
+        if name == "for_each":
+            for x in el:
+                call(args[0], x)
+            return UNIT
+        if name == "flat_map":
+            out = []
+            for x in el:
+                r = call(args[0], x)
+                if isinstance(r, (ListV, IterV)):
+                    out.extend(r.elems)
+                else:
+                    raise Unsupported("flat_map closure result " + vkey(r))
+            return IterV(out)
+        raise Unsupported(f"iterator method {name} on a concrete iterator")
 
     def std_ret(self, recv, name):
         if name in ("is_empty", "contains_key", "contains", "starts_with", "ends_with", "any", "all", "is_ident", "eq", "ne"):
